@@ -7,7 +7,15 @@ pub fn take_diff<T: SizedType>(
     old_skeleton: &StateTreeSkeleton<T>,
     new_skeleton: &StateTreeSkeleton<T>,
 ) -> HashSet<CopyFromPatch> {
-    build_patches_recursive(old_skeleton, new_skeleton, vec![], vec![])
+    build_patches_recursive(old_skeleton, new_skeleton, vec![], vec![]).0
+}
+
+/// Number of state cells (leaves) below a node; an empty call node carries nothing.
+fn leaf_count<T: SizedType>(node: &StateTreeSkeleton<T>) -> usize {
+    match node {
+        StateTreeSkeleton::FnCall(children) => children.iter().map(|c| leaf_count(c)).sum(),
+        _ => 1,
+    }
 }
 
 /// Enum representing the result of LCS algorithm
@@ -55,8 +63,9 @@ pub fn lcs_by_score<T>(
         if i > 0 && j > 0 {
             let score = score_fn(&old[i - 1], &new[j - 1]);
 
-            if score > 0.0 {
-                // Likely matched
+            // Take the pair only where the table says that pairing it is optimal; a pair
+            // with some score is not necessarily part of the best alignment.
+            if score > 0.0 && dp[i][j] == dp[i - 1][j - 1] + score {
                 results.push(DiffResult::Common {
                     old_index: i - 1,
                     new_index: j - 1,
@@ -124,7 +133,9 @@ fn build_patches_recursive<T: SizedType>(
     new_skeleton: &StateTreeSkeleton<T>,
     old_path: Vec<usize>,
     new_path: Vec<usize>,
-) -> HashSet<CopyFromPatch> {
+) -> (HashSet<CopyFromPatch>, usize) {
+    // Returns the patches and the number of state cells they carry over (the weight of
+    // this pair when the parent aligns its children).
     // Retrieve the current node from the path
     let old_node = get_node_at_path(old_skeleton, &old_path).expect("Invalid old_path");
     let new_node = get_node_at_path(new_skeleton, &new_path).expect("Invalid new_path");
@@ -144,13 +155,16 @@ fn build_patches_recursive<T: SizedType>(
             "Size mismatch between matched nodes at old_path {old_path:?} and new_path {new_path:?}"
         );
 
-        return [CopyFromPatch {
-            src_addr,
-            dst_addr,
-            size,
-        }]
-        .into_iter()
-        .collect();
+        return (
+            [CopyFromPatch {
+                src_addr,
+                dst_addr,
+                size,
+            }]
+            .into_iter()
+            .collect(),
+            leaf_count(old_node),
+        );
     }
 
     match (old_node, new_node) {
@@ -161,17 +175,16 @@ fn build_patches_recursive<T: SizedType>(
                 for new_idx in 0..new_children.len() {
                     let child_old_path = [old_path.clone(), vec![old_idx]].concat();
                     let child_new_path = [new_path.clone(), vec![new_idx]].concat();
-                    let patches = build_patches_recursive(
+                    // A candidate pair weighs as many cells as it carries over, so that a
+                    // complete subtree match outweighs a partial one and an empty node,
+                    // which carries nothing, does not count as a match.
+                    let (patches, cells) = build_patches_recursive(
                         old_skeleton,
                         new_skeleton,
                         child_old_path,
                         child_new_path,
                     );
-                    let score = if patches.is_empty() {
-                        0.0
-                    } else {
-                        patches.len() as f64
-                    };
+                    let score = cells as f64;
                     child_patches_map.push(((old_idx, new_idx), patches, score));
                 }
             }
@@ -194,21 +207,23 @@ fn build_patches_recursive<T: SizedType>(
 
             // Collect patches based on LCS results
             let mut c_patches = HashSet::new();
+            let mut cells = 0usize;
             for result in &lcs_results {
                 if let DiffResult::Common {
                     old_index,
                     new_index,
                 } = result
-                    && let Some((_, patches, _)) = child_patches_map
+                    && let Some((_, patches, score)) = child_patches_map
                         .iter()
                         .find(|((o, n), _, _)| o == old_index && n == new_index)
                 {
                     c_patches.extend(patches.iter().cloned());
+                    cells += *score as usize;
                 }
             }
 
-            c_patches
+            (c_patches, cells)
         }
-        _ => HashSet::new(),
+        _ => (HashSet::new(), 0),
     }
 }
